@@ -26,7 +26,8 @@ from ..runner import Outcome
 ID = "C10"
 RULE = ("Hypothesis-generated actor scripts over one Semaphore or CapacityLimiter (acquire, acquire_nowait, "
         "acquire_on_behalf_of, release, total_tokens assignments incl. 0/inf/lower-below-borrowed/raise-again, cancels "
-        "placed around releases and total changes) and task-free *_nowait/setter histories; non-trivial = a waiter "
+        "placed around releases and total changes, steps bundling several such actions into one loop cycle) and task-free "
+        "*_nowait/setter histories; non-trivial = a waiter "
         "granted through release or through a total_tokens raise, a cancelled waiter, or a total lowered below the "
         "number borrowed; distinct = distinct canonical JSON")
 ASSUMPTIONS = [
